@@ -1,4 +1,4 @@
 SPECIFICATION Spec
-CONSTANTS MaxComps = 2 MaxParams = 3 UnkComp = {0, 2, 33, 35, 136, 255} UnkParam = {0, 8, 255}
+CONSTANTS MaxComps = 2 MaxParams = 3 UnkComp = {0, 2, 33, 35, 136, 255} UnkParam = {0, 8, 255} FullUnk = {}
 INVARIANTS TypeOK MeasureBounded AgreesWithGrammar RoundTrip PrefixLaw UnknownIsError Canonical WellFormedCases
 PROPERTIES MeasureDecreases
